@@ -173,8 +173,16 @@ func writeUsingMaterial(mat *modeling.Material, out *txt.Writer) {
 	}
 }
 
-func writeFaceVerts(tris *iter.ArrayIterator[int], out *txt.Writer, start, end, offset int) {
-	shift := 1 + offset
+// faceOffsets are the number of v, vt and vn lines written for the meshes that
+// precede the one whose faces are being written. OBJ indices are global per
+// pool, and meshes without uvs/normals contribute nothing to those pools, so
+// each pool needs its own offset.
+type faceOffsets struct {
+	v, vt, vn int
+}
+
+func writeFaceVerts(tris *iter.ArrayIterator[int], out *txt.Writer, start, end int, offset faceOffsets) {
+	shift := 1 + offset.v
 	for triIndex := start; triIndex < end; triIndex += 3 {
 		out.StartEntry()
 		out.String("f ")
@@ -188,91 +196,95 @@ func writeFaceVerts(tris *iter.ArrayIterator[int], out *txt.Writer, start, end, 
 	}
 }
 
-func writeFaceVertsAndUvs(tris *iter.ArrayIterator[int], out *txt.Writer, start, end, offset int) {
-	shift := 1 + offset
+func writeFaceVertsAndUvs(tris *iter.ArrayIterator[int], out *txt.Writer, start, end int, offset faceOffsets) {
+	shift := 1 + offset.v
+	uvShift := 1 + offset.vt
 	for triIndex := start; triIndex < end; triIndex += 3 {
-		p1 := tris.At(triIndex) + shift
-		p2 := tris.At(triIndex+1) + shift
-		p3 := tris.At(triIndex+2) + shift
+		p1 := tris.At(triIndex)
+		p2 := tris.At(triIndex + 1)
+		p3 := tris.At(triIndex + 2)
 
 		out.StartEntry()
 		out.String("f ")
 
-		out.Int(p1)
+		out.Int(p1 + shift)
 		out.String("/")
-		out.Int(p1)
+		out.Int(p1 + uvShift)
 		out.Space()
 
-		out.Int(p2)
+		out.Int(p2 + shift)
 		out.String("/")
-		out.Int(p2)
+		out.Int(p2 + uvShift)
 		out.Space()
 
-		out.Int(p3)
+		out.Int(p3 + shift)
 		out.String("/")
-		out.Int(p3)
+		out.Int(p3 + uvShift)
 		out.NewLine()
 		out.FinishEntry()
 	}
 }
 
-func writeFaceVertsAndNormals(tris *iter.ArrayIterator[int], out *txt.Writer, start, end, offset int) {
-	shift := 1 + offset
+func writeFaceVertsAndNormals(tris *iter.ArrayIterator[int], out *txt.Writer, start, end int, offset faceOffsets) {
+	shift := 1 + offset.v
+	normalShift := 1 + offset.vn
 	for triIndex := start; triIndex < end; triIndex += 3 {
-		p1 := tris.At(triIndex) + shift
-		p2 := tris.At(triIndex+1) + shift
-		p3 := tris.At(triIndex+2) + shift
+		p1 := tris.At(triIndex)
+		p2 := tris.At(triIndex + 1)
+		p3 := tris.At(triIndex + 2)
 
 		out.StartEntry()
 		out.String("f ")
 
-		out.Int(p1)
+		out.Int(p1 + shift)
 		out.String("//")
-		out.Int(p1)
+		out.Int(p1 + normalShift)
 		out.Space()
 
-		out.Int(p2)
+		out.Int(p2 + shift)
 		out.String("//")
-		out.Int(p2)
+		out.Int(p2 + normalShift)
 		out.Space()
 
-		out.Int(p3)
+		out.Int(p3 + shift)
 		out.String("//")
-		out.Int(p3)
+		out.Int(p3 + normalShift)
 		out.NewLine()
 		out.FinishEntry()
 	}
 }
 
-func writeFaceVertAndUvsAndNormals(tris *iter.ArrayIterator[int], out *txt.Writer, start, end, offset int) {
-	shift := 1 + offset
+func writeFaceVertAndUvsAndNormals(tris *iter.ArrayIterator[int], out *txt.Writer, start, end int, offset faceOffsets) {
+	shift := 1 + offset.v
+	uvShift := 1 + offset.vt
+	normalShift := 1 + offset.vn
 	for triIndex := start; triIndex < end; triIndex += 3 {
-		p1 := tris.At(triIndex) + shift
-		p2 := tris.At(triIndex+1) + shift
-		p3 := tris.At(triIndex+2) + shift
+		p1 := tris.At(triIndex)
+		p2 := tris.At(triIndex + 1)
+		p3 := tris.At(triIndex + 2)
 
 		out.StartEntry()
 		out.String("f ")
 
-		out.Int(p1)
+		out.Int(p1 + shift)
 		out.String("/")
-		out.Int(p1)
+		out.Int(p1 + uvShift)
 		out.String("/")
-		out.Int(p1)
+		out.Int(p1 + normalShift)
 		out.Space()
 
-		out.Int(p2)
+		out.Int(p2 + shift)
 		out.String("/")
-		out.Int(p2)
+		out.Int(p2 + uvShift)
 		out.String("/")
-		out.Int(p2)
+		out.Int(p2 + normalShift)
 		out.Space()
 
-		out.Int(p3)
+		out.Int(p3 + shift)
 		out.String("/")
-		out.Int(p3)
+		out.Int(p3 + uvShift)
 		out.String("/")
-		out.Int(p3)
+		out.Int(p3 + normalShift)
 		out.NewLine()
 		out.FinishEntry()
 	}
@@ -358,9 +370,9 @@ func WriteMeshes(meshes []ObjMesh, materialFile string, out io.Writer) error {
 		}
 	}
 
-	var faceWriter func(tris *iter.ArrayIterator[int], out *txt.Writer, start, end, offset int)
+	var faceWriter func(tris *iter.ArrayIterator[int], out *txt.Writer, start, end int, offset faceOffsets)
 
-	indexOffset := 0
+	indexOffset := faceOffsets{}
 	for _, objMesh := range meshes {
 		if len(meshes) > 1 || objMesh.Name != "" {
 			fmt.Fprintf(out, "g %s\n", objMesh.Name)
@@ -401,7 +413,16 @@ func WriteMeshes(meshes []ObjMesh, materialFile string, out io.Writer) error {
 				offset = nextOffset
 			}
 		}
-		indexOffset += m.AttributeLength()
+		// Advance each pool by what this mesh actually wrote to it
+		if m.HasFloat3Attribute(modeling.PositionAttribute) {
+			indexOffset.v += m.Float3Attribute(modeling.PositionAttribute).Len()
+		}
+		if m.HasFloat2Attribute(modeling.TexCoordAttribute) {
+			indexOffset.vt += m.Float2Attribute(modeling.TexCoordAttribute).Len()
+		}
+		if m.HasFloat3Attribute(modeling.NormalAttribute) {
+			indexOffset.vn += m.Float3Attribute(modeling.NormalAttribute).Len()
+		}
 	}
 
 	return nil
